@@ -159,12 +159,48 @@ def run_oracle(prop, tier, seed, known_ids, budget):
     return last
 
 
+def run_selftest(prop):
+    """applies every catalogued change that concerns this property to a scratch copy of /repo (under $TMPDIR, removed at once)
+    and runs this property's quick check on it; returns the exit codes"""
+    import glob
+    import shutil
+    import tempfile
+    out = dict(seeded={}, benign={}, rule='seeded/<id> (property-breaking, confirmed) must end in exit 1; benign/<id> (behaviour-preserving) must not end in exit 1')
+    jobs = []
+    for d in sorted(glob.glob(os.path.join(VERIF, 'seeded', '*', 'meta.json'))):
+        m = json.load(open(d))
+        if (m.get('breaks') or m.get('property')) == prop:
+            jobs.append(('seeded', os.path.basename(os.path.dirname(d)), os.path.join(os.path.dirname(d), 'patch.diff')))
+    for d in sorted(glob.glob(os.path.join(VERIF, 'benign', '*', 'meta.json'))):
+        m = json.load(open(d))
+        if prop in m.get('properties', []):
+            jobs.append(('benign', os.path.basename(os.path.dirname(d)), os.path.join(os.path.dirname(d), 'patch.diff')))
+    for kind, ident, patch in jobs:
+        S = tempfile.mkdtemp(prefix='selftest-')
+        try:
+            for f in glob.glob(os.path.join(REPO, '*.py')):
+                shutil.copy(f, S)
+            shutil.copytree(os.path.join(REPO, 'inputs'), os.path.join(S, 'inputs'))
+            os.makedirs(os.path.join(S, 'outputs'), exist_ok=True)
+            if subprocess.run(['patch', '-p1', '-s', '-i', patch], cwd=S, capture_output=True).returncode != 0:
+                out[kind][ident] = 'patch does not apply to the current tree'
+                continue
+            env = dict(os.environ, PYVC_REPO=S, VERIF_TIER='quick')
+            p = subprocess.run([sys.executable, os.path.join(VERIF, 'pyvc', 'check.py'), prop, '--tier', 'quick', '--evidence', os.path.join(S, 'evidence.json')],
+                               cwd=VERIF, env=env, capture_output=True, text=True, timeout=1800)
+            out[kind][ident] = p.returncode
+        finally:
+            shutil.rmtree(S, ignore_errors=True)
+    return out
+
+
 def main():
     ap = argparse.ArgumentParser()
     ap.add_argument('prop')
     ap.add_argument('--tier', default=os.environ.get('VERIF_TIER', 'quick'))
     ap.add_argument('--relock', action='store_true')
     ap.add_argument('--no-oracle', action='store_true')
+    ap.add_argument('--evidence', default=None)
     a = ap.parse_args()
     tier = a.tier if a.tier in ('quick', 'thorough') else 'quick'
     seed = int(os.environ.get('VERIF_SEED', '0') or 0)
@@ -172,7 +208,7 @@ def main():
     from contracts.props import PROPS
     prop = a.prop
     P = PROPS[prop]
-    ev_path = os.path.join(VERIF, 'evidence', prop + '.json')
+    ev_path = a.evidence or os.path.join(VERIF, 'evidence', prop + '.json')
     os.makedirs(os.path.dirname(ev_path), exist_ok=True)
     timeout = 10 if tier == 'quick' else 60
     lines = []
@@ -269,6 +305,14 @@ def main():
         lines.append(f"UNDECIDED property={prop} function={q} reason=contract-inapplicable ({why.splitlines()[0][:200]})")
     if status == 3:
         lines.append(f"CHECKER-ERROR property={prop} vacuous={[r['name'] for r in vacuous]} disagree={[r['name'] for r in disagree]} obligations={len(res)} oracle_error={orc.get('error')}")
+    # ---- thorough tier: self-test against the committed catalogues (seeded/ must be reported, benign/ must not raise an alarm)
+    selftest = None
+    if tier == 'thorough' and not os.environ.get('PYVC_REPO') and not os.environ.get('PYVC_NO_SELFTEST'):
+        selftest = run_selftest(prop)
+        missed = [k for k, v in selftest['seeded'].items() if v != 1]
+        alarms = [k for k, v in selftest['benign'].items() if v == 1]
+        if missed or alarms:
+            lines.append(f"SELFTEST property={prop} seeded changes not reported: {missed}; behaviour-preserving changes reported as violations: {alarms}")
     # ---- evidence
     by_fn = collections.defaultdict(list)
     for r in res:
@@ -304,6 +348,7 @@ def main():
                                    failures=len(orc.get('failures', [])), samples=orc.get('samples', [])[:3], detail=orc.get('detail', {}))],
             known_findings=[k['what'] for k in orc.get('known', [])],
             lock=dict(locked=len(locked), missing_from_run=sorted(locked - {r['name'] for r in res})[:20]),
+            mutation_selftest=selftest,
         ),
         assumptions=P.get('assumptions', []),
         violations=len(violations),
